@@ -234,6 +234,14 @@ fn cr0_write_then_read(a: u64) -> [u64; 3] {
     let f1 = Cr0::read().bits();
     [r0, r1, f1]
 }
+/// CR3 read, write, read in one function: the second read must see the write
+#[inline(never)]
+fn cr3_write_then_read(frame: u64, low: u16) -> [u64; 4] {
+    let (f0, l0) = Cr3::read_raw();
+    unsafe { Cr3::write_raw(PhysFrame::containing_address(PhysAddr::new(frame)), low) };
+    let (f1, l1) = Cr3::read_raw();
+    [f0.start_address().as_u64(), l0 as u64, f1.start_address().as_u64(), l1 as u64]
+}
 #[inline(never)]
 fn efer_two_updates(a: u64, b: u64) -> [u64; 2] {
     let mut seen = [0u64; 2];
@@ -281,6 +289,15 @@ pub fn run_regs(out: &mut Out, seed: u64, _n: u64) {
         let got = cr0_write_then_read(a);
         let ins = cpu::drain();
         out.emit(Ev::new("reg_seq").str("api", "Cr0::read_raw;Cr0::write_raw;Cr0::read_raw;Cr0::read").w("pre", pre).w("mask", Cr0Flags::all().bits()).words("p", &[a, 0]).words("r", &got).w("post", get(Reg::Cr(0))).raw("instrs", &cpu::instrs_json(&ins)));
+        {
+            let pre = (r.next() & 0x000f_ffff_ffff_f000) | (r.next() & 0xfff);
+            let (fr, low) = (r.next() & 0x000f_ffff_ffff_f000, (r.next() & 0xfff) as u16);
+            set(Reg::Cr(3), pre);
+            cpu::drain();
+            let got = cr3_write_then_read(fr, low);
+            let ins = cpu::drain();
+            out.emit(Ev::new("reg_seq").str("api", "Cr3::read_raw;Cr3::write_raw;Cr3::read_raw").w("pre", pre).w("mask", 0).words("p", &[fr, low as u64]).words("r", &got).w("post", get(Reg::Cr(3))).raw("instrs", &cpu::instrs_json(&ins)));
+        }
         let me = EferFlags::all().bits();
         let (pre, a, b) = (r.next(), r.next() & me, r.next() & me);
         set(Reg::Msr(EFER), pre);
